@@ -79,6 +79,14 @@ theorem eval_commute (cfg : Cfg) (l r : Expr) (hl : PureAt cfg l) (hr : PureAt c
       = evalExpr cfg (fuel + 1) (.infix sp ty op l r) st :=
   eval_commute_int cfg l r hl hr il ir fuel sp ty op hop st
 
+/-- The purity hypothesis is needed: with the operand `{ x = 5; x }` (an assignment inside) and
+`x = 1` before, `{ x = 5; x } + x` is 10 but the swapped `(x) + ({ x = 5; x })` is 6.
+(Kernel-checked evaluation of the specification semantics.) -/
+theorem commute_needs_purity_counterexample :
+    intResult (evalExpr { prog := [] } 8 (.infix spZ .int .add effectfulOperand readX) stateX1) = some 10
+      ∧ intResult (evalExpr { prog := [] } 8 (commute (.infix spZ .int .add effectfulOperand readX)) stateX1) = some 6 := by
+  refine ⟨by decide, by decide⟩
+
 /-! ## The product as a loop -/
 
 /-- For a non-negative multiplier `b` the loop `while mul_count < b { mul_res += a; mul_count += 1; }`
